@@ -222,11 +222,39 @@ def run_sweeps(ctx, plan, dis):
         sweeps = pool.map(L.sweep_task, sjobs, chunksize=1)
         verdicts = pool.map(L.verdict_task, [(rng.getrandbits(32),) for _ in range(plan["verdicts"])], chunksize=4)
         irqs = pool.map(L.irq_task, [(rng.getrandbits(32),) for _ in range(plan["irqs"])], chunksize=2)
-    for group in (sweeps, verdicts, irqs):
+        consts = pool.map(L.const_task, [(rng.getrandbits(32),) for _ in range(plan.get("consts", 20))], chunksize=5)
+    for group in (sweeps, verdicts, irqs, consts):
         for c in list(group):
             if c.get("crash"):
                 dis.append(Dis("crash", c["input"], alarm=c["crash"]))
                 group.remove(c)
+    # constants: add_constant histories against addConstants
+    ans = ctx.lean.call_batch([c["line"] for c in consts])
+    for c, a in zip(consts, ans):
+        if a != c["real"]:
+            dis.append(Dis("correspondence", c["input"], c["line"], c["real"], a))
+        if c["alarm"]:
+            dis.append(Dis("oracle", c["input"], alarm=c["alarm"]))
+    ctx.cov.add_cases("SoC.add_constant histories against addConstants (+ soc.h defines each once)", len(consts),
+                      sum(1 for c in consts if c["real"] == "rejected"), False)
+    # interrupt numbers: LocH run + irqConstants / irqWiring / cpuInterrupts / irqLines against the real SoC
+    ans = ctx.lean.call_batch([c["line"] for c in irqs])
+    for c, a in zip(irqs, ans):
+        parts = a.split(" # ")
+        r = c["real"]
+        ok = len(parts) == 5 and parts[0] == r["locs"] and sorted(parts[1].split()) == sorted(r["consts"].split()) \
+            and parts[3] == r["cpuints"] and parts[4] == r["lines"]
+        if ok:
+            # the wiring as observed: firing module m raised exactly the lines the model wires to m
+            wired = {}
+            for w in parts[2].split():
+                if w != "-":
+                    l_, m_ = w.split(":")
+                    wired.setdefault(int(m_), []).append(int(l_))
+            ok = all(sorted(wired.get(m_, [])) == sorted(ls or []) for m_, ls in r["wired"].items())
+        if not ok:
+            dis.append(Dis("correspondence", c["input"], c["line"], json.dumps(r), a))
+        ctx.cov.count("lean.irq")
     nl = 0
     for c in irqs:
         for a in c["alarms"]:
